@@ -76,6 +76,33 @@ def gen_cases(tier, rng):
                 ops.append(["alldata"])
         cases.append({"cls": "random-history", "ops": ops, "nx": int(rng.integers(1, 17)), "ny": int(rng.integers(1, 13)),
                       "complex": bool(rng.random() < 0.7), "seed": int(rng.integers(1 << 30)), "cost": 1 + L / 10})
+    # accumulation at ONE storage level with array objects re-used by the caller (the package's own calculators add one zero array
+    # to several signals and accumulate on top), reads in between, then admissible reductions
+    for i in range(60 if tier == "quick" else 500):
+        lvl = LEVELS[i % len(LEVELS)]
+        ops = []
+        for _ in range(int(rng.integers(4, 22))):
+            u = rng.random()
+            if u < 0.75:
+                dt = str(rng.choice(DTYPES[lvl]))
+                tag = ("t%d" % int(rng.integers(0, 3))) if lvl == "pathways" else None
+                ops.append(["add", lvl, dt, tag])
+            elif u < 0.9:
+                ops.append(["spectrum", str(rng.choice([TOTAL, SIG_REPH, SIG_NONR]))])
+            else:
+                ops.append(["alldata"])
+        cur = LNUM[lvl]
+        while cur > 0 and rng.random() < 0.8:
+            nxt = [b for (a, b) in CONV_OK if a == cur]
+            cur = int(rng.choice(nxt))
+            ops.append(["setres", LEVELS[cur]])
+            ops.append(["alldata"])
+            ops.append(["spectrum", str(rng.choice([TOTAL, SIG_REPH, SIG_NONR]))])
+            if rng.random() < 0.5:
+                ops.append(["add", LEVELS[cur], str(rng.choice(DTYPES[LEVELS[cur]])), ("t0" if LEVELS[cur] == "pathways" else None)])
+                ops.append(["alldata"])
+        cases.append({"cls": "accumulate-shared-arrays", "ops": ops, "nx": int(rng.integers(1, 9)), "ny": int(rng.integers(1, 9)),
+                      "complex": bool(rng.random() < 0.5), "seed": int(rng.integers(1 << 30)), "cost": 1 + len(ops) / 10})
     # exhaustive short histories, chunked
     maxlen = 3 if tier == "quick" else 4
     allh = []
@@ -244,7 +271,7 @@ def classify_add(tw, lvl, dt, tag, shadow):
     return "either", eff
 
 
-def run_history(ctx, ops, nx, ny, cplx, rng, label):
+def run_history(ctx, ops, nx, ny, cplx, rng, label, reuse=0.35, p_byref=0.75):
     import quantarhei as qr
     from quantarhei.spectroscopy.twod2 import TwoDResponse
     shape = (nx, ny)
@@ -256,19 +283,30 @@ def run_history(ctx, ops, nx, ny, cplx, rng, label):
     n_acc = 0
     reduced = False
     tol_scale = 0.0
+    pool = []
     for k, op in enumerate(ops):
         det = {"history": label, "step": k, "op": op, "ops_so_far": [o[:4] for o in ops[:k + 1]][-8:],
                "storage_resolution": tw.storage_resolution}
         if op[0] == "add":
             _, lvl, dt, tag = op
-            data = rng.normal(size=shape)
-            if cplx:
-                data = data + 1j * rng.normal(size=shape)
+            # the caller may hand the same array object to several additions and keeps using it afterwards:
+            # what was added is the VALUE at the time of the call
+            if pool and rng.random() < reuse:
+                arg = pool[int(rng.integers(len(pool)))]
+                ctx.event("adds_reusing_an_array_object")
+            else:
+                arg = rng.normal(size=shape)
+                if cplx:
+                    arg = arg + 1j * rng.normal(size=shape)
+                if rng.random() < 0.7:
+                    pool.append(arg)
+            data = numpy.array(arg, copy=True)
+            byref = bool(rng.random() < p_byref)
             verdict, eff = classify_add(tw, lvl, dt, tag, sh)
             before = snapshot_views(tw, sh)
             res_before = tw.storage_resolution
             try:
-                tw._add_data(numpy.array(data, copy=True), resolution=lvl, dtype=dt, tag=tag)
+                tw._add_data(arg if byref else numpy.array(data, copy=True), resolution=lvl, dtype=dt, tag=tag)
                 accepted = True
             except Exception:
                 accepted = False
@@ -396,6 +434,12 @@ def run_case(case, ctx):
         run_history(ctx, case["ops"], case["nx"], case["ny"], case["complex"], rng, "random")
         ctx.nontrivial(bool(ctx._subkeys))
         ctx.key(("random", len(case["ops"]), case["seed"]))
+        return
+    if case["cls"] == "accumulate-shared-arrays":
+        rng = numpy.random.default_rng(case["seed"])
+        run_history(ctx, case["ops"], case["nx"], case["ny"], case["complex"], rng, "shared", reuse=0.5, p_byref=1.0)
+        ctx.nontrivial(bool(ctx._subkeys))
+        ctx.key(("shared", len(case["ops"]), case["seed"]))
         return
     rng = numpy.random.default_rng(12345)
     for h in case["hist"]:
